@@ -747,6 +747,34 @@ func serialDesc(p *Program, fn *ssa.Function, v ssa.Value, depth int) (string, b
 				parts = append(parts, part{-1, d, 0})
 				return true
 			}
+			// plain append chain: append(append(base, A...), B...) over a base of length 0 with constant-length pieces
+			if isBuiltin(&x.Call, "append") {
+				lcx := NewLinCtx(p, fn)
+				var pieces []ssa.Value
+				cur := ssa.Value(x)
+				for {
+					ap, ok := cur.(*ssa.Call)
+					if !ok || !isBuiltin(&ap.Call, "append") || len(ap.Call.Args) != 2 {
+						break
+					}
+					pieces = append([]ssa.Value{ap.Call.Args[1]}, pieces...)
+					cur = ap.Call.Args[0]
+				}
+				if l0 := lcx.LenLin(cur); !l0.isConst() || l0.c != 0 {
+					return false
+				}
+				off := int64(0)
+				for _, pc := range pieces {
+					l := lcx.LenLin(pc)
+					if !l.isConst() {
+						return false
+					}
+					parts = append(parts, part{off, "bytes " + tb.Term(pc).String(), l.c})
+					off += l.c
+				}
+				total = off
+				return len(pieces) > 0
+			}
 			// append chain ending in AppendUint32
 			if cal := x.Call.StaticCallee(); cal != nil && strings.Contains(cal.String(), "AppendUint32") {
 				order := "big-endian"
